@@ -3,9 +3,15 @@
 Proof: Props/C18.lean over Model/Block.lean (the wake-up protocol: register first, one-place
 wake-up buffer, non-blocking notify, rescan after every wake-up): a waiter only sleeps when it has
 looked at every key after the last push to it; a push step is always enabled; null only from an
-armed timer. Tie: the wake-up steps the real code reports (register, try, block, wake, timeout,
-notify, unregister) must be steps of the model (`bev` lines; the same runs also validate the locking
-protocol trace, `pev` lines). Search: the `bpop` scenario on the real code - immediate pops (first
+armed timer. Below it, Model/BlockProg.lean is the CODE of blockingPop / addBlockKeys / removeBlockingKeys /
+notifyBlockingKey and the push around it as an interleaving semantics (pcs, one transition per mutex / channel
+operation); Props/C18.lean §9 proves that every schedule emits a run of the protocol (`blockprog_refines_block`), that
+the hook-call order is a run of the token-counting relation (`blockprog_hook_order_refines_loose`), and on program
+states: no missed wake-up from the push side, unregistration on every exit path (panic included), no lock held while
+blocked. Tie: the wake-up steps the real code reports (register, try, block, wake, timeout,
+notify, unregister) must be steps of the protocol model AND the next event of the corresponding thread of the
+program model (`bev` / `bpp` lines: registry lock discipline, cList order, loop structure; a self-test keeps the
+replay from becoming vacuous); the same runs also validate the locking protocol trace (`pev` lines). Search: the `bpop` scenario on the real code - immediate pops (first
 key, correct end), timeouts (whole and fractional seconds, over TCP), timeout 0, BRPOP woken by a
 multi-element push, hand-off of 24 elements to 5 waiters with short timeouts while pushes arrive
 over the embedded API and over TCP (each element exactly once, pushes prompt and never an error)."""
